@@ -627,6 +627,7 @@ func (ps *PipeSim) maxTicker() time.Duration {
 // drain lets a healthy system finish: execute everything pending, advance past the batch ticker, repeat
 // until done() or the round budget is used up (the budget is the bounded-liveness part of the oracles).
 func (ps *PipeSim) drain(rounds int, check func(), done func() bool) {
+	ps.r.Calm()
 	step := ps.cfg.BatchTicker + time.Millisecond
 	for i := 0; i < rounds; i++ {
 		for guard := 0; guard < 100000; guard++ {
